@@ -62,6 +62,11 @@ func (ex *Exec) newBigPtr(t *Term) PtrV {
 
 func (ex *Exec) checkBits(t *Term, limit *big.Int, msg string) {
 	tf := ex.tf
+	if ex.withinAbs(t, limit) {
+		// implied by interval reasoning; keep it as a lemma for the solver
+		ex.axiom(tf.And(tf.ILt(t, tf.IntConst(limit)), tf.IGt(t, tf.IntConst(new(big.Int).Neg(limit)))))
+		return
+	}
 	over := tf.Or(tf.IGe(t, tf.IntConst(limit)), tf.ILe(t, tf.IntConst(new(big.Int).Neg(limit))))
 	if ex.Branch(over) {
 		ex.goPanic(msg)
@@ -439,7 +444,18 @@ func init() {
 	})
 	reg(M+"LegacyMinDec", func(ex *Exec, a []Val) Val {
 		x, y := ex.decArg(a[0], "MinDec"), ex.decArg(a[1], "MinDec")
-		return DecV{T: ex.tf.Ite(ex.tf.ILt(x, y), x, y)}
+		t := ex.tf.Ite(ex.tf.ILt(x, y), x, y)
+		// min(x,y) <= x, y: give the interval reasoning the tighter upper bound
+		bx, by := ex.bounds(x), ex.bounds(y)
+		r := ex.bounds(t)
+		for _, h := range []*big.Int{bx.hi, by.hi} {
+			if h != nil && (r.hi == nil || h.Cmp(r.hi) < 0) {
+				r.hi = h
+			}
+		}
+		ex.extraBounds[t.ID] = r
+		delete(ex.boundMemo, t.ID)
+		return DecV{T: t}
 	})
 	reg(M+"LegacyMaxDec", func(ex *Exec, a []Val) Val {
 		x, y := ex.decArg(a[0], "MaxDec"), ex.decArg(a[1], "MaxDec")
